@@ -196,8 +196,8 @@ theorem close_inside (c : Cfg) (s : St) (clear : Bool) (hi : Inv c s) :
             · exact (hin.mono (dirname_prefix p)).mono hx)
         have hb := base_preserved c _ _ t hi.1 ⟨hi.2.1, hi.2.2.1⟩
         exact ⟨t, ⟨hi.1, hb.1, hb.2, fun q hq => hi.2.2.2 q (by rw [hp]; exact hq)⟩, rfl, rfl, rfl⟩
-      · exact ⟨Touched.refl _ _, hi, hp, rfl, rfl⟩
-  · exact ⟨Touched.refl _ _, hi, rfl, rfl, rfl⟩
+      · exact ⟨Touched.refl _ _, ⟨hi.1, hi.2.1, hi.2.2.1, fun q hq => hi.2.2.2 q (by rw [hp]; exact hq)⟩, rfl, rfl, rfl⟩
+  · exact ⟨Touched.refl _ _, ⟨hi.1, hi.2.1, hi.2.2.1, hi.2.2.2⟩, rfl, rfl, rfl⟩
 
 /-- `remake` under whatever settings are in force touches only the inside of a head -/
 theorem remake_inside (c : Cfg) (c' : Cfg) (hh : c'.head = c.head) (hth : c'.tempHead = c.tempHead)
@@ -219,10 +219,10 @@ theorem reopenTail_inside (c : Cfg) (s2 : St) (reuse clean : Bool) (i2 : Inv c s
   unfold reopenTail
   have hrem : Touched s2.fs
       (match remake (cur c s2) clean s2.fs s2.tmpN with
-        | (fs, n, Except.ok p) => (({ s2 with fs := fs, tmpN := n, path := some p } : St), (Except.ok () : Except Exn Unit))
+        | (fs, n, Except.ok p) => (({ s2 with fs := fs, tmpN := n, path := some p, opened := true } : St), (Except.ok () : Except Exn Unit))
         | (fs, n, Except.error e) => ({ s2 with fs := fs, tmpN := n }, Except.error e)).1.fs (InHead c) ∧
       Inv c (match remake (cur c s2) clean s2.fs s2.tmpN with
-        | (fs, n, Except.ok p) => (({ s2 with fs := fs, tmpN := n, path := some p } : St), (Except.ok () : Except Exn Unit))
+        | (fs, n, Except.ok p) => (({ s2 with fs := fs, tmpN := n, path := some p, opened := true } : St), (Except.ok () : Except Exn Unit))
         | (fs, n, Except.error e) => ({ s2 with fs := fs, tmpN := n }, Except.error e)).1 := by
     obtain ⟨t2, hp2⟩ := remake_inside c (cur c s2) rfl rfl clean s2.fs s2.tmpN ⟨i2.2.1, i2.2.2.1⟩
     generalize remake (cur c s2) clean s2.fs s2.tmpN = rr at t2 hp2
@@ -255,7 +255,7 @@ theorem reopenTail_inside (c : Cfg) (s2 : St) (reuse clean : Bool) (i2 : Inv c s
             ocfn_touched _ _ _ _ ((i2.2.2.2 p hp).mono (dirname_prefix p)) ho
           have hb := base_preserved c _ _ t2 i2.1 ⟨i2.2.1, i2.2.2.1⟩
           exact ⟨t2, i2.1, hb.1, hb.2, fun q hq => i2.2.2.2 q (by rw [hp]; exact hq)⟩
-      · exact ⟨Touched.refl _ _, i2⟩
+      · exact ⟨Touched.refl _ _, i2.1, i2.2.1, i2.2.2.1, fun q hq => i2.2.2.2 q (by rw [hp]; exact hq)⟩
 
 theorem reopen_inside (c : Cfg) (s : St) (clear reuse clean : Bool) (nt : Option Bool) (nf : Option (List Nat))
     (hi : Inv c s) :
@@ -274,7 +274,7 @@ theorem reopen_inside (c : Cfg) (s : St) (clear reuse clean : Bool) (nt : Option
 
 /-- C29 for EVERY history: whatever sequence of `reopen(temp, fext, clear, reuse, clean)` / `close(clear)` calls is
 made on a Filer with whatever name, base, extension and flags — also when the calls switch it between persistent and
-temporary — the filesystem afterwards differs from the one before only in entries inside the Filer's own head
+temporary, when the Filer lives in an `openFiler` context (`exit`) or is driven by a `FilerDoer` (`doer`) — the filesystem afterwards differs from the one before only in entries inside the Filer's own head
 directory or inside its own `mkdtemp` directories -/
 theorem history_inside_head (c : Cfg) (steps : List Step) (s : St) (hi : Inv c s) :
     Touched s.fs (runAll c s steps).fs (InHead c) ∧ Inv c (runAll c s steps) := by
@@ -285,6 +285,19 @@ theorem history_inside_head (c : Cfg) (steps : List Step) (s : St) (hi : Inv c s
       cases st with
       | reopen a b cl t f => exact reopen_inside c s a b cl t f hi
       | close a => exact ⟨(close_inside c s a hi).1, (close_inside c s a hi).2.1⟩
+      | exit a => exact ⟨(close_inside c s _ hi).1, (close_inside c s _ hi).2.1⟩
+      | doer =>
+        simp only [step]
+        split
+        · exact ⟨(close_inside c s _ hi).1, (close_inside c s _ hi).2.1⟩
+        · obtain ⟨t1, i1⟩ := reopen_inside c s false false false none none hi
+          generalize reopen c s false false false none none = r at t1 i1
+          obtain ⟨s1, r1⟩ := r
+          cases r1 with
+          | error e => exact ⟨t1, i1⟩
+          | ok u =>
+            simp only at t1 i1 ⊢
+            exact ⟨t1.trans (close_inside c s1 _ i1).1, (close_inside c s1 _ i1).2.1⟩
     obtain ⟨t2, i2⟩ := ih _ h1.2
     exact ⟨h1.1.trans t2, i2⟩
 
@@ -294,6 +307,18 @@ theorem fresh_filer_history_inside_head (c : Cfg) (fs : FS) (steps : List Step)
     (hb : HeadOk fs c.head) (hbt : ∀ q, q <+: c.tempHead → q ≠ [] → kind? fs q ≠ none) :
     Touched fs (runAll c (fresh c fs) steps).fs (InHead c) :=
   (history_inside_head c steps (fresh c fs) ⟨hap, hb, hbt, fun p h => by cases h⟩).1
+
+/-- C29.2 for the context manager: when `with openFiler(..., clear=cl)` is left, a temporary Filer, or any Filer
+opened with `clear=True`, has nothing left at its path — whatever happened inside the block, in particular also when
+the block already closed the Filer itself (`.opened` plays no role) -/
+theorem context_exit_clears_path (c : Cfg) (s s' : St) (p : P) (cl : Bool) (hp : s.path = some p)
+    (hc : (s.temp || cl) = true) (h : step c s (.exit cl) = (s', .ok ())) : kind? s'.fs p = none := by
+  simp only [step, close, hc, ↓reduceIte, hp] at h
+  split at h
+  · rename_i fs' hcl
+    cases h
+    exact clearPath_removes_path _ _ _ _ hcl
+  · cases h
 
 /-- C29.2 across a reconfiguring `reopen`: a PERSISTENT Filer that is reopened as a temporary one
 (`reopen(temp=True, clear=…)`) clears its old path under the OLD setting — it removes nothing that is not at or
